@@ -202,6 +202,13 @@ class Ctx:
         h = os.path.join(self.scratch, "harness")
         if not os.path.isdir(h):
             shutil.copytree(HARNESS, h)
+            only = os.environ.get("VERIF_PFILES")
+            if only:
+                keep = set(x.strip() for x in only.split(","))
+                vd = os.path.join(h, "cmd", "vcheck")
+                for fn in os.listdir(vd):
+                    if fn.startswith("p_") and fn not in keep:
+                        os.remove(os.path.join(vd, fn))
             with open(os.path.join(h, "go.mod"), "w") as f:
                 f.write("module verifharness\n\ngo 1.21.0\n\nrequire github.com/golang/geo v0.0.0\n\n"
                         "replace github.com/golang/geo => %s\n" % self.repo)
